@@ -37,7 +37,9 @@ CHECKS = {
              "duplicated or reordered, so names that differ modulo case/underscore stay different), length bounds, names "
              "without capitals unchanged; for all ASCII identifiers. The uniqueness of generated names over overloads x "
              "default arguments x explicit/defaulted suffixes is checked by a bounded run of the real generate_functions "
-             "(labelled bounded, not proof); it exposed one genuine defect (fixed) and one recorded known finding.",
+             "(labelled bounded, not proof) and by a file-level bounded check of the generated C and Fortran files of six "
+             "libraries (no wrapper defined twice, no Fortran entity declared twice, compilers accept); they exposed one "
+             "genuine defect (fixed) and two recorded known findings.",
         design_ref="6/C08, A.3",
         note="Not covered deductively: define_function_suffix / has_default_args / template and generic expansion (clone "
              "FunctionNodes, mutate Scopes), name templates, dump_generic_interfaces, Python/Lua method tables.",
@@ -50,10 +52,13 @@ CHECKS = {
              "each write_output_file call targets the directory designated for its kind; every C/Fortran file written is "
              "listed under the same condition with join(directory, name); Python/Lua emitters never touch the lists; "
              "main_with_args runs each emitter's wrap_library only under its wrap.<lang> flag, in the order C, Fortran, "
-             "Python, Lua, and writes --cfiles/--ffiles from the lists. One genuine defect found and fixed.",
+             "Python, Lua, and writes --cfiles/--ffiles from the lists; the output directories are the option for their kind "
+             "else --outdir; WrapFlags.accumulate/assign and PromoteWrap (a container's flag is the OR over all its members, "
+             "every member container visited); a default-argument variant keeps its function's wrap_c/wrap_fortran. Two "
+             "genuine defects found and fixed.",
         design_ref="6/C15",
         note="Not covered: byte-identity of C/Fortran files under wrap_python struct-constructor addition; per-declaration "
-             "flags inside the emitters; WrapFlags/PromoteWrap. Bounded monitor m_wrapsel in the thorough tier.",
+             "flags inside the emitters beyond the units named. Bounded monitor m_wrapsel (both tiers).",
         technique="contract-based deductive verification (ghost sets, SMT) + structural obligations over the real AST",
     ),
     "C16": dict(
@@ -77,8 +82,9 @@ CHECKS = {
              "unconditional keyed writes that never read prior content and whose keys are never enumerated; a temporary "
              "rebinding restored in a finally clause. Plus: no reachable read of time/environment/host/random/pid/"
              "directory listings, no id()/hash() flowing to output, no set iteration. Ten roots failed on the original tree; "
-             "four genuine defects were repaired. Thorough tier: bounded run-time frame check (in-process sequences of "
-             "libraries vs fresh processes).",
+             "four genuine defects were repaired. A reset that exists but is reached only conditionally or after use is a "
+             "failure; implicit reads of the working directory (abspath, relpath without start, ...) count as impure. Thorough "
+             "tier: bounded run-time frame check (in-process sequences of libraries vs fresh processes).",
         design_ref="6/C07, Appendix C",
         note="Sound under the aliasing assumptions of DESIGN.md section 8 (name-based alias closure; reflective writes only "
              "at visible setattr sites). J3 roots carry the listed assumption about stale keys; debug dumps excluded. "
@@ -91,6 +97,7 @@ CHECKS = {
              "at the first '=', typed as the YAML file would type it (true/false -> bool, digits -> int, else text), a missing "
              "'=' stops with SystemExit. Call-site obligations computed from the AST: every attribute of `args` that "
              "main_with_args reads is set by create_wrapper and defined by the argument parser, with the same defaults. "
+             "FunctionNode.__init__ merges fattrs; every node's options/fmtdict parent is its syntactic parent's. "
              "Three genuine defects found and fixed. Whole-run identity is only monitored (bounded, thorough tier).",
         design_ref="6/C14",
         note="Not covered: util.Scope lookup semantics and per-node scope wiring (planned), attrs/fattrs merge, identity of "
@@ -103,10 +110,14 @@ CHECKS = {
              "rule v(i) = explicit value else v(i-1)+1: every member's Fortran value and every explicit member's C value "
              "evaluate to v(i), for int and expression modes, all member counts; plus the expression printer "
              "(todict.PrintNode.visit_BinaryOp / visit_UnaryOp / visit_ParenExpr) against a token-safety oracle (no operand "
-             "starting with a sign directly after an operator). Two genuine defects found and fixed (octal literal, 1--1).",
+             "starting with a sign directly after an operator); the emission loops Wrapc.wrap_enum (an initialiser may be left "
+             "out only where the source has none) and Wrapf.wrap_enum (one parameter per member with its own value); "
+             "PrintNodeIdentifier.visit_Constant (octal literal -> decimal for Fortran). Bounded (labelled): g++ evaluates the "
+             "original enumeration and the generated header, gfortran the module. Three genuine defects found and fixed.",
         design_ref="6/C11, A.6",
         note="Relative to the oracles A1/A1o/A2/A3 (decimal vs octal literals, '+k' suffix, identifier renaming) written from "
-             "the standards; compilers' own evaluation, wrapp.wrap_enum and the emission loops are not covered.",
+             "the standards; ExprParser.expression precedence only through the bounded compiler oracle; wrapp/Lua constants "
+             "not covered.",
         technique="contract-based deductive verification (AST-generated VCs, z3+cvc5)",
     ),
     "C04": dict(
@@ -150,12 +161,14 @@ CHECKS = {
     ),
     "C10": dict(
         category="proof",
-        text="Deductive on the real C helper texts (ShroudLenTrim, ShroudStrCopy, ShroudStrBlankFill, ShroudStrAlloc; both "
+        text="Deductive on the real C helper texts (ShroudLenTrim, ShroudStrCopy, ShroudStrBlankFill, ShroudStrAlloc, "
+             "ShroudStrArrayAlloc -- every element is the NUL-terminated copy of its row without trailing blanks; both "
              "the c_source and cxx_source variants, extracted from whelpers.CHelpers on every run): loop invariants and "
              "pre/postconditions over a (block, offset) memory model give, for all lengths and contents, the documented "
              "copy/truncate/blank-pad/NUL-terminate/trim behaviour, no byte written outside the destination, no read outside "
              "the source, int arithmetic in range. Plus call-site contracts over the statement tables (which buffer, which "
-             "capacity, which trimmed length each row passes), decided exhaustively.",
+             "capacity, which trimmed length each row passes; a row that returns text into a fixed-length variable defines "
+             "all of it), decided exhaustively. Bounded: upstream's compiled string tests on freshly generated wrappers.",
         design_ref="6/C10, A.9",
         note="Trusted: mini-C front end, libc contracts (memcpy/memset/strlen/malloc), LP64, malloc succeeds. Not covered: "
              "Fortran intrinsics trim/len/len_trim and std::string(ptr,n) semantics, the Fortran-side slice, ShroudStrToArray/copy_string.",
@@ -183,7 +196,10 @@ CHECKS = {
              "shapes, check_var_attrs, parse_attrs, check_implied_attrs): raises only RuntimeError for every attribute "
              "value the parser or YAML can produce (None/bool/int/str/float), plus the documented defaulting and range "
              "rules as postconditions; callers are checked against callee contracts. Six genuine defects found this way "
-             "were repaired with fix: commits. Parser/YAML-structure units are covered by a bounded monitor only.",
+             "were repaired with fix: commits. Parser statement level (have, mustbe, decl_statement, error_msg) and a "
+             "node-wiring judgement (add_declarations rejects a parent that cannot hold declarations; BlockNode's parent "
+             "attributes exist for every parent class). YAML structure: bounded monitor (374 descriptions); five more "
+             "defects fixed there.",
         design_ref="6/C17, A.8",
         note="Trusted: pyvc, z3/cvc5, PyVal value model, trusted contracts for declast.check_dimension and "
              "generate.check_implied, 'the parser sets Declaration.typemap'. Not covered (bounded only): token-level "
@@ -194,13 +210,17 @@ CHECKS = {
         category="proof",
         text="Deductive: VCs from the real text of util._create_splicer (precedence force > user splicer > default, marker "
              "lines, body appended complete/in order/unchanged), splicer.get_splicers (two-state line machine: one store "
-             "event per well-formed block, lines right-stripped, complete, in order; only RuntimeError) and the emission "
+             "event per well-formed block, lines right-stripped, complete, in order, stored at the node reached through the "
+             "dotted prefix of its tag; only RuntimeError), Wrapf.wrap_namespace (a namespace's module is written under that "
+             "namespace's splicer scope; 0-2 nested namespaces), a judgement that YAML-listed splicer files go to the store of "
+             "their key, and the emission "
              "identity of a user line through write_lines/write_continue, discharged by z3/cvc5 for all inputs. The "
              "unrestricted emission identity is a recorded known finding (interior TAB / trailing '+'); it is proved under "
              "the finding's carve-out.",
         design_ref="6/C12, A.4, A.5",
-        note="Trusted: pyvc, z3/cvc5, abstract nested-dict store (class Tree), split()/rstrip() vocabulary. Not covered: "
-             "reader path vs emitter stack correspondence (bounded monitor only), source precedence in main_with_args, listify.",
+        note="Trusted: pyvc, z3/cvc5, nested-dict store as class Tree with ghost paths, split()/rstrip() vocabulary. Bounded "
+             "(labelled): reader on block orders; end-to-end round trip of one unique line per block of every generated file. "
+             "Not covered: source precedence in main_with_args, listify.",
         technique="contract-based deductive verification (AST-generated VCs, z3+cvc5)",
     ),
     "C13": dict(
